@@ -258,7 +258,8 @@ func handleWhoAmI(params internal.HandlerFuncParams) ([]byte, error) {
 	defer acl.RUnlockUsers()
 
 	connectionInfo := acl.Connections[params.Connection]
-	return []byte(fmt.Sprintf("+%s\r\n", connectionInfo.User.Username)), nil
+	username := connectionInfo.User.Username
+	return []byte(fmt.Sprintf("$%d\r\n%s\r\n", len(username), username)), nil
 }
 
 func handleList(params internal.HandlerFuncParams) ([]byte, error) {
